@@ -292,5 +292,45 @@ def rule_e6(repo):
     return res
 
 
+def rule_e7(repo):
+    """A quotient of constants has no value when the denominator is zero; the calculator relies on the
+    ZeroDivisionError of to_const_poly to recognise indeterminate forms (0 / 0 in a limit, an evaluation at a
+    removable singularity) and to fall back to a limit.  In the division case every answer must come after the
+    zero-denominator test - a shortcut `0 / b = 0` in front of it gives 0 / 0 the value 0."""
+    from ..cfg import cfg_of
+    res = RuleResult('C19.E7', 'the division of constants answers only after the zero-denominator test', floor=1)
+    f = repo.func('integral/poly.py', 'to_const_poly')
+    cfg = cfg_of(f.node)
+    div = [t for t in cfg.test_nodes() if isinstance(t.ast, ast.Call) and call_attr(t.ast) == 'is_divides']
+    need(div, 'to_const_poly: division case not found')
+    d = div[0]
+    branch = cfg.reach_from([b for b, l in d.succ if l == 'true'], skip_edges=[(d.id, 'false')])
+    zero = [t for t in cfg.test_nodes() if t.id in branch and compare_parts(t.ast) and compare_parts(t.ast)[0] is ast.Eq and
+            isinstance(compare_parts(t.ast)[2], ast.Constant) and compare_parts(t.ast)[2].value == 0 and 'get_fraction' in src(t.ast, 80)]
+    need(zero, 'to_const_poly: zero-denominator test not found in the division case')
+    z = zero[0]
+    raises = any(isinstance(b.ast, ast.Raise) for b, l in z.succ if l == 'true')
+    bad = []
+    # returns of the division case: reachable from the branch entry before any other is_* dispatch
+    first = [b for b, l in d.succ if l == 'true']
+    subject = src(d.ast.func.value, 10)
+    other_cases = [t for t in cfg.test_nodes() if t is not d and isinstance(t.ast, ast.Call) and isinstance(t.ast.func, ast.Attribute) and
+                   t.ast.func.attr.startswith('is_') and src(t.ast.func.value, 10) == subject]
+    rets = [r for r in cfg.return_nodes() if r.id in cfg.reach_from(first, skip_nodes=other_cases)]
+    need(rets, 'to_const_poly: no answer found in the division case')
+    # the edges on which the compound zero test `.. and <b> == 0` is left without raising
+    group = [t for t in cfg.test_nodes() if t.stmt is z.stmt]
+    passed = [(t.id, l) for t in group for bn, l in t.succ if bn not in group and not isinstance(bn.ast, ast.Raise)]
+    for r in rets:
+        if cfg.path_avoiding(r, skip_edges=passed, start=first[0]) is not None:
+            bad.append('line %d `%s`' % (r.lineno, src(r.ast, 40)))
+    ok = raises and not bad
+    res.add('integral/poly.py :: to_const_poly :: zero-denominator-first', ok,
+            '%d answer(s), all behind the test `%s`' % (len(rets), src(z.ast, 40)) if ok else
+            ('the zero-denominator test does not raise' if not raises else ', '.join(bad) + ' answered before the denominator was tested: 0 / 0 gets the value 0, '
+             'and a limit of an indeterminate form is "simplified" to 0 instead of being reduced'), f.loc)
+    return res
+
+
 def rules(repo):
-    return [rule_e1(repo), rule_e2(repo), rule_e3(repo), rule_e4(repo), rule_e5(repo), rule_e6(repo)]
+    return [rule_e1(repo), rule_e2(repo), rule_e3(repo), rule_e4(repo), rule_e5(repo), rule_e6(repo), rule_e7(repo)]
